@@ -69,6 +69,17 @@ Theorem C15_grf_perm_invariant :
 Proof. exact grf_perm_invariant. Qed.
 Print Assumptions C15_grf_perm_invariant.
 
+(* ---- with and without branch lengths: removing all lengths changes neither distance ---- *)
+Theorem C15_distances_ignore_lengths :
+  forall a b, wf_tree a -> wf_tree b -> seteq (leaves a) (leaves b) ->
+    tree_rf (strip_len a) (strip_len b) = tree_rf a b /\ tree_grf (strip_len a) (strip_len b) = tree_grf a b.
+Proof.
+  exact (fun a b Wa Wb S =>
+    conj (f_equal (option_map snd) (distances_ignore_lengths a b Wa Wb S))
+         (f_equal (option_map fst) (distances_ignore_lengths a b Wa Wb S))).
+Qed.
+Print Assumptions C15_distances_ignore_lengths.
+
 (* ---- a tree against itself, however it is written: 0 ---- *)
 Theorem C15_rf_self_zero :
   forall t t', wf_tree t -> has_split t = true -> tperm t t' ->
